@@ -148,7 +148,8 @@ def rule_terms(ctx):
         return _canon_tests([("cond", ("bin", "Eq", VN, s_), True)])[0]
 
     def replaced(s_, term, selfv):
-        return sorted([((eq(s_),), term), ((("not", (eq(s_),)),), selfv)], key=repr)
+        from ..leaves import negate as _negate
+        return sorted([((eq(s_),), term), ((_negate((eq(s_),)),), selfv)], key=repr)
     payload = {"Infimum": {}, "Supremum": {}, "FunctionConstant": {"0": ("param", "$c")}, "Variable": {"0": ("param", "$s")}, "IntegerTerm": {"0": ("param", "$t")},
                "SymbolicTerm": {"0": ("param", "$t")}, "Numeral": {"0": ("param", "$n")}, "Symbol": {"0": ("param", "$c")},
                "UnaryOperation": {"op": ("param", "$op"), "arg": ("param", "$a")}, "BinaryOperation": {"op": ("param", "$op"), "lhs": ("param", "$l"), "rhs": ("param", "$r")}}
